@@ -305,6 +305,16 @@ impl BudgetEnforcer {
     ///
     /// Returns `Err(BudgetBreach)` as soon as a limit is exceeded.
     pub fn observe(&mut self, ev: &Event) -> Result<(), BudgetBreach> {
+        if self.policy == EnforcingPolicy::PerDocument && matches!(ev, Event::DocumentStart(_)) {
+            // Per-document enforcement: every document starts from a clean slate, *before* its
+            // own start event is counted, so that nothing of an earlier document (its event
+            // count, its anchors, nesting left open by an abandoned document) can influence
+            // whether this one is accepted.
+            self.report.reset();
+            self.defined_anchors.clear();
+            self.depth = 0;
+            self.containers.clear();
+        }
         self.report.events += 1;
         if self.report.events > self.budget.max_events {
             return Err(BudgetBreach::Events {
@@ -385,9 +395,7 @@ impl BudgetEnforcer {
                 self.handle_alias();
             }
             Event::DocumentStart(_explicit) => {
-                if self.policy == EnforcingPolicy::PerDocument {
-                    self.report.reset();
-                } else {
+                if self.policy != EnforcingPolicy::PerDocument {
                     self.report.documents += 1;
                     if self.report.documents > self.budget.max_documents {
                         return Err(BudgetBreach::Documents {
